@@ -87,6 +87,12 @@ def c09(tier, seed):
                      bounds="all byte strings of length %d" % n,
                      functions=["sta_rs::Message::from_bytes", "sta_rs::Share::from_bytes", "adss::load_bytes"],
                      stubs=dec_stubs, to_case=case_decode("sta_rs::Message::from_bytes", n)))
+    obs.append(K("c06::c06_interpolate_t2", cap=300, must_cover=["reached"],
+                 claim="share recovery's interpolation never panics (no unwrap of a failed inversion) for any two distinct points, the point 0 included, and any values",
+                 bounds="t = 2, GF(13) (a panic here is the vanishing of a polynomial expression in the points)", stubs=SF, functions=["interpolate"]))
+    obs.append(M("mir::recover-structure", "Sharks::recover: no MIR assert (index, overflow) reachable for symbolic points; only pairwise distinct points reach interpolate",
+                 bounds="n <= 3/4 shares"))
+    obs.append(M("native::c09-foreign-input", "concrete cross-check on the natively compiled crates (not a solver query): ~6600 structured malformed inputs - every truncation and byte/length-prefix mutation of valid encodings, byte arrays and base64 strings of every length 0..40/64, random buffers of 0..320 bytes - fed to ServerPublicKey/ProofDLEQ::load_from_bincode, the JSON and bincode decoders of Point / Evaluation / ServerKeyState, Server::eval, Client::verify (undecodable points, missing proof), star_wasm::group_shares, sta_rs::Message/Share::from_bytes and share_recover: no panic", bounds="concrete, seeded; this is the only coverage of the ppoprf and star_wasm entry points of C09"))
     return {
         "obligations": obs,
         "level": "model_checking",
@@ -163,6 +169,9 @@ def c06(tier, seed):
                  claim="a secret containing an element not below the modulus is refused, never altered; in-range secrets are accepted",
                  bounds="all 48-byte secrets", stubs=["barrier_noop", "fp_from_repr_spec"], functions=["Sharks::dealer_rng"]))
     obs.append(K("c06::c06_gen_nonzero", cap=600, must_cover=["resampled twice", "resampled once", "accepted at once"],
+                 # the harness' random source is a stub: natively the same thing is a scripted source
+                 # that yields one, two and three zero candidates before a non-zero one
+                 to_case=lambda o, info: [{"kind": "gen_script", "t": 2, "words": [0] * (3 * k) + [5, 0, 0]} for k in (1, 2, 3)],
                  claim="Evaluator::gen: the share point is the accepted draw of the supplied source, never 0, and the value is the polynomial at that point",
                  bounds="at most two resamples (third candidate assumed non-zero)", stubs=SF, functions=["Evaluator::gen", "Evaluator::evaluate"]))
     obs.append(K("c06::c06_interpolate_t2", cap=300, must_cover=["reached"],
@@ -182,6 +191,11 @@ def c06(tier, seed):
     obs.append(M("mir::recover-vectors",
                  "native Sharks::recover + interpolate agree with a Python big-integer model of textbook Shamir on every point pattern over {0,1,2,3}^n, n <= 4, thresholds 0..4 (concrete cross-check; also the source of replayable counterexamples)",
                  bounds="concrete enumeration, values seeded"))
+    obs.append(M("mir::dealer-threshold",
+                 "Sharks::dealer_rng -> random_polynomial from the MIR with a *symbolic u32 threshold T*: a path that leaves the coefficient loop after j draws has j == max(T,1)-1 for every T (the threshold reaches the loop bound at its full width: degree exactly T-1); one polynomial per secret element; the constant term is the secret element, every other coefficient a separate draw in draw order",
+                 bounds="secrets of 1 and 2 elements; the first 4 (quick) / 8 (thorough) loop iterations are explored, the continuing path is cut and shown to need T > iterations; from_repr opaque (accepting), Fp::random = n-th opaque draw",
+                 functions=["Sharks::dealer_rng", "random_polynomial"]))
+    obs.append(M("native::c06-dealer-gen", "concrete cross-check on the natively compiled crates (not a solver query; produces replayable counterexamples when a change rewrites code into a shape the symbolic engines refuse): Evaluator::gen under scripted random sources that yield up to five zero candidates in a row never hands out the point 0; dealing with thresholds 1,2,3,255..257,65535..65537 draws at least 3(t-1) source words per element and two shares of a t >= 2 sharing differ in value", bounds="concrete"))
     return {
         "obligations": obs,
         "level": "model_checking",
@@ -194,34 +208,50 @@ def c06(tier, seed):
     }
 
 
+def c08_case(fn, n):
+    from vlib import refparse
+    def f(o, info):
+        b = flat_bytes(info, n)
+        if b is None or len(b) < n:
+            return []
+        ref = {"sharks": refparse.sharks, "share": refparse.share, "message": refparse.message}[fn](b)
+        c = {"kind": "c08_decode", "fn": fn, "bytes": b.hex(), "expect_accept": ref is not None}
+        if ref is not None:
+            c["expect_canon"] = ref.hex()
+        return [c]
+    return f
+
+
 def c08(tier, seed):
     obs = []
     dec = ["barrier_noop", "fp_from_repr_spec", "fp_to_repr_spec", "Drop impls of sta_rs::Share / adss::AccessStructure (zeroisation only) -> no-op"]
     for n, q in [(23, "q"), (24, "q"), (47, "t"), (48, "q"), (50, "q"), (72, "q")]:
         obs.append(K("c08::c08_sharks_accept_%d" % n, tier=q, cap=300, must_cover=(["accepted"] if n >= 24 else []) + ["rejected"],
                      claim="star_sharks::Share::try_from accepts exactly the byte strings the independent layout parser accepts (>= 24 bytes, every whole 24-byte element canonical); number of elements agrees",
-                     bounds="all byte strings of length %d" % n, stubs=dec, functions=["star_sharks::Share::try_from"]))
+                     bounds="all byte strings of length %d" % n, stubs=dec, functions=["star_sharks::Share::try_from"], to_case=c08_case("sharks", n)))
     for n, q in [(24, "q"), (47, "t"), (48, "q"), (50, "q"), (72, "t")]:
         obs.append(K("c08::c08_sharks_canon_%d" % n, tier=q, cap=300, must_cover=["accepted"],
                      claim="re-encoding of any accepted Shamir share is the canonical form of the input: whole 24-byte little-endian elements unchanged, ignored tail dropped",
-                     bounds="all byte strings of length %d" % n, stubs=dec, functions=["star_sharks::Share::try_from", "From<&Share> for Vec<u8>"]))
+                     bounds="all byte strings of length %d" % n, stubs=dec, functions=["star_sharks::Share::try_from", "From<&Share> for Vec<u8>"], to_case=c08_case("sharks", n)))
     for n, q in [(8, "q"), (103, "t"), (104, "q"), (106, "t"), (128, "q"), (130, "t")]:
         obs.append(K("c08::c08_share_accept_%d" % n, tier=q, cap=600, must_cover=(["accepted"] if n >= 104 else []) + ["rejected"],
                      claim="sta_rs/adss Share::from_bytes accepts exactly what the independent parser of the documented layout accepts (truncation, inconsistent/huge length prefixes, non-canonical elements all inside the query)",
                      bounds="all byte strings of length %d, length prefixes symbolic" % n, stubs=dec,
-                     functions=["adss::Share::from_bytes", "adss::load_bytes", "star_sharks::Share::try_from"]))
+                     functions=["adss::Share::from_bytes", "adss::load_bytes", "star_sharks::Share::try_from"], to_case=c08_case("share", n)))
     for n, q in [(12, "q"), (115, "t"), (116, "q"), (120, "t"), (144, "t")]:
         obs.append(K("c08::c08_message_accept_%d" % n, tier=q, cap=900, mem=16, must_cover=(["accepted"] if n >= 116 else []) + ["rejected"],
                      claim="sta_rs::Message::from_bytes accepts exactly what the independent parser accepts (ciphertext/share/tag chunks, trailing bytes ignored)",
-                     bounds="all byte strings of length %d" % n, stubs=dec, functions=["sta_rs::Message::from_bytes"]))
+                     bounds="all byte strings of length %d" % n, stubs=dec, functions=["sta_rs::Message::from_bytes"], to_case=c08_case("message", n)))
     obs.append(K("c08::c08_load_bytes_ref_big", cap=300, must_cover=["chunk longer than 64 KiB", "chunk of 256 bytes"],
                  claim="adss::load_bytes / load_u32 agree with the reference chunk parser (4-byte little-endian length, data right after it)",
-                 bounds="every buffer length 0..=70000 and every header value (so every byte of the length prefix matters)", functions=["adss::load_bytes", "adss::load_u32"]))
+                 bounds="every buffer length 0..=70000 and every header value (so every byte of the length prefix matters)", functions=["adss::load_bytes", "adss::load_u32"],
+                 to_case=lambda o, info: (lambda b: [{"kind": "c08_store", "data": "", "buffer": b[:int.from_bytes(b[70000:70008], "little")].hex()}] if b and len(b) >= 70008 else [])(flat_bytes(info))))
     for n in (0, 255, 256, 300):
         obs.append(K("c08::c08_store_bytes_%d" % n, tier="q" if n in (0, 256) else "t", cap=300, extra=FUNC,
                      unwindset=[("c08::", 305)] + RULES,
                      claim="store_bytes writes a 4-byte little-endian length then the data; load_bytes inverts it",
-                     bounds="all chunks of %d bytes" % n, functions=["adss::store_bytes", "adss::store_u32", "adss::load_bytes"]))
+                     bounds="all chunks of %d bytes" % n, functions=["adss::store_bytes", "adss::store_u32", "adss::load_bytes"],
+                     to_case=(lambda n: (lambda o, info: [{"kind": "c08_store", "data": (flat_bytes(info, n) or b"").hex()}] if flat_bytes(info, n) is not None and len(flat_bytes(info, n)) == n else []))(n)))
     adss_st = dec + ["f1600_ro: Keccak-f as collision-free random oracle", "OsRng -> arbitrary words", "is_valid stub (one pass of Fp::random)", "field mul/invert by the C07 field laws"]
     for h, q in [("c08_honest_roundtrip_1_1", "q"), ("c08_honest_roundtrip_4_0", "t")]:
         obs.append(K("c16::" + h, tier=q, cap=900, mem=30, must_cover=["reached"],
@@ -270,14 +300,20 @@ def c04(tier, seed):
                 for d in range(3):
                     sh = (a, b, c, d)
                     def tc(o, info, sh=sh):
-                        v = lay(info, [("m1", sh[0]), ("e1", sh[1]), ("t1", 4), ("m2", sh[2]), ("e2", sh[3]), ("t2", 4)])
+                        v = lay(info, [("m1", sh[0]), ("e1", sh[1]), ("t1", 4), ("m2", sh[2]), ("e2", sh[3]), ("t2", 4), ("init1", 32), ("init2", 32)])
                         if not v:
                             return []
                         return [{"kind": "c04_triples", "m1": v["m1"].hex(), "e1": v["e1"].hex(), "t1": int.from_bytes(v["t1"], "little"),
-                                 "m2": v["m2"].hex(), "e2": v["e2"].hex(), "t2": int.from_bytes(v["t2"], "little")}]
+                                 "m2": v["m2"].hex(), "e2": v["e2"].hex(), "t2": int.from_bytes(v["t2"], "little"),
+                                 "init1": v["init1"].hex(), "init2": v["init2"].hex()},
+                                # a collision between *different* triples exists only in the oracle model; the
+                                # native realisation of a buffer-dependent digest is one triple, two buffers
+                                {"kind": "c04_triples", "m1": v["m1"].hex(), "e1": v["e1"].hex(), "t1": int.from_bytes(v["t1"], "little"),
+                                 "m2": v["m1"].hex(), "e2": v["e1"].hex(), "t2": int.from_bytes(v["t1"], "little"),
+                                 "init1": v["init1"].hex(), "init2": bytes(b ^ 0xff for b in v["init1"]).hex()}]
                     obs.append(K("c04::c04_inject_%d_%d_%d_%d" % sh, tier="q" if sh in quick_shapes else "t", cap=400, must_cover=[],
                                  claim="sample_local_randomness: the 32-byte randomness of two (measurement, epoch, threshold) triples is equal iff the triples are equal (boundary-shifted pairs, empty components, thresholds differing in any bit included)",
-                                 bounds="|m1|=%d |e1|=%d |m2|=%d |e2|=%d, all contents, all u32 thresholds" % sh, stubs=STROBE,
+                                 bounds="|m1|=%d |e1|=%d |m2|=%d |e2|=%d, all contents, all u32 thresholds, arbitrary prior content of the two output buffers" % sh, stubs=STROBE,
                                  functions=["MessageGenerator::sample_local_randomness", "strobe_digest", "StrobeRng", "strobe_rs::Strobe"], to_case=tc))
     for sh in ((1, 1, 1, 1), (2, 1, 1, 2), (0, 0, 0, 0)):
         obs.append(K("c04::c04_inject_%d_%d_%d_%d_w" % sh, tier="t", cap=900, must_cover=(["equal triples reachable"] if sh[0] == sh[2] else []) + ["different triples reachable"],
@@ -299,6 +335,7 @@ def c04(tier, seed):
         obs.append(K("c16b::" + h, tier=q, cap=600, must_cover=["reached"],
                      claim="every share draws its own evaluation point from the OS RNG *after* everything else of the share was computed (so tag/key/C/D/J/polynomial do not depend on it); t-1 coefficients come from the transcript RNG",
                      bounds="see C16", stubs=ADSS, functions=["adss::Commune::share"]))
+    obs.append(M("native::c04-triples", "concrete cross-check on the natively compiled crates (not a solver query; produces replayable counterexamples when a change rewrites code into a shape the symbolic engines refuse): pairs of (measurement, epoch, threshold) triples that differ in one component, by a byte moved across the measurement/epoch boundary, or only in bytes that are not valid UTF-8 (0x80, 0xff, 0xc0 0x80, U+FFFD itself), thresholds 1, 2, 257, 65537, 2^32-1: randomness, tag and key equal iff the triples are equal; independent shares of equal triples have different points; a non-zero output buffer does not influence the randomness", bounds="concrete, ~250 (quick) / ~490 pairs"))
     return {
         "obligations": obs, "level": "model_checking",
         "bounds": "measurement/epoch components of 0..2 bytes (all 81 shape combinations in thorough), any u32 threshold; 32-byte randomness",
@@ -326,9 +363,16 @@ def c16(tier, seed):
                               ("c16_structure_m0_r0_t1", (0, 0, 1), "q"), ("c16_structure_m4_r0_t3", (4, 0, 3), "t")):
         def tc(o, info, ml=ml, rl=rl, t=t):
             v = lay(info, [("m", 8), ("r", 8)])
-            return [{"kind": "adss_scenario", "m": v["m"][:ml].hex(), "r": v["r"][:rl].hex(), "t": t, "n_shares": t, "expect_ok": True}] if v else []
+            if not v:
+                return []
+            cs = [{"kind": "adss_scenario", "m": v["m"][:ml].hex(), "r": v["r"][:rl].hex(), "t": t, "n_shares": t, "expect_ok": True}]
+            # the same contents with one message / coin byte flipped: coefficients must differ
+            m2 = bytes([v["m"][0] ^ 1]) + v["m"][1:ml] if ml else b""
+            r2 = v["r"][:rl] if ml else (bytes([v["r"][0] ^ 1]) + v["r"][1:rl] if rl else b"")
+            cs.append({"kind": "adss_coeffs", "m": v["m"][:ml].hex(), "r": v["r"][:rl].hex(), "m2": m2.hex(), "r2": r2.hex()})
+            return cs
         obs.append(K("c16b::" + h, tier=q, cap=600, must_cover=["reached"],
-                     claim="share(): everything except the point and the values at it is computed before the single OS draw, hence a deterministic function of (threshold, message, coins); exactly t-1 coefficient draws from the transcript-seeded RNG; J = MAC output over (A, M, R), C = M xor keystream(K), D = R xor keystream(K, C); for t = 1 the value is K||0",
+                     claim="share(): everything except the point and the values at it is computed before the single OS draw, hence a deterministic function of (threshold, message, coins); exactly t-1 coefficient draws from the transcript-seeded RNG; J = MAC output over (A, M, R), C = M xor keystream(K), D = R xor keystream(K, C); every permutation call is chained (capacity lanes) to its Strobe object: J, K and then every coefficient draw continue the one transcript that absorbed A, M, R; for t = 1 the value is K||0",
                      bounds="|M|=%d |R|=%d t=%d, all contents" % (ml, rl, t), stubs=ADSS, functions=["adss::Commune::share", "adss::Share::to_bytes", "StrobeRng", "Sharks::dealer_rng", "Evaluator::gen"], to_case=tc))
     for h, (ml, rl), q in (("c16_recover_t1_m1_r1", (1, 1), "t"), ("c16_recover_t1_m4_r0", (4, 0), "t"), ("c16_recover_t1_m0_r4", (0, 4), "t")):
         def tc(o, info, ml=ml, rl=rl):
@@ -347,6 +391,7 @@ def c16(tier, seed):
                  to_case=lambda o, info: adss_case(o, info, [("m", 2)], t=0, n_shares=1)))
     obs.append(M("mir::recover-structure", "Sharks::recover selection logic (see C06): any t shares with distinct points are what interpolation receives, independent of order/duplicates/surplus",
                  bounds="n <= 3/4, symbolic points"))
+    obs.append(M("native::c16-scenarios", "concrete cross-check on the natively compiled crates (not a solver query; produces replayable counterexamples when a change rewrites code into a shape the symbolic engines refuse): messages / coins of 0..300 bytes, t = 1..3 with exactly t and t+2 shares: wire round trip, recovery returns M; threshold 0 and foreign transcripts refused; three independent invocations of one t = 2 sharing are collinear, the slope is non-zero and differs when one message or coin byte differs", bounds="concrete"))
     return {
         "obligations": obs, "level": "model_checking",
         "bounds": "message / coins of 0..4 bytes, thresholds 0..3",
@@ -366,8 +411,15 @@ def c05(tier, seed):
             if not v:
                 return []
             lo, hi, nb = {0: (0, 4, v["nt"]), 1: (60, 62, v["nc"]), 2: (66, 68, v["nc"]), 3: (68, 132, v["nj"])}[which]
-            return [{"kind": "adss_scenario", "m": v["m"].hex(), "r": v["r"].hex(), "t": 1, "n_shares": 1, "fault_lo": lo, "fault_hi": hi,
-                     "fault_bytes": nb.hex(), "must_reject": True}]
+            cs = [{"kind": "adss_scenario", "m": v["m"].hex(), "r": v["r"].hex(), "t": 1, "n_shares": 1, "fault_lo": lo, "fault_hi": hi,
+                   "fault_bytes": nb.hex(), "must_reject": True}]
+            if which == 0:
+                # the native realisation of "the Shamir layer still returns the honest key under a
+                # rewritten threshold": surplus shares and the recorded threshold raised to their number
+                for t, n in ((1, 2), (2, 3), (1, 3)):
+                    cs.append({"kind": "adss_scenario", "m": v["m"].hex(), "r": v["r"].hex(), "t": t, "n_shares": n, "fault_lo": 0, "fault_hi": 4,
+                               "fault_bytes": n.to_bytes(4, "little").hex(), "must_reject": True})
+            return cs
         obs.append(K("c16b::c05_fault_" + name, tier=q, cap=2400, mem=24, must_cover=["rejected"],
                      claim="the %s field of the ciphertext-supplying share replaced by arbitrary different content: recovery always returns an error" % name,
                      bounds="honest threshold-1 sharing of 2-byte message and coins; the whole field arbitrary (subsumes every bit/byte fault); threshold fault: the Shamir layer returns an arbitrary key; C/D/J faults: it returns the honest key (single-field fault; with a chosen key and a matching tag an attacker presents his own consistent sharing); altered x / y only change the key and are covered by c05_any_interpolated_key",
@@ -378,6 +430,7 @@ def c05(tier, seed):
                  bounds="honest threshold-2 sharing of 2-byte message/coins; interpolated key = arbitrary 24 bytes or error", stubs=ADSS + ["Sharks::recover -> arbitrary Ok(24 bytes) / Err"],
                  functions=["adss::recover", "adss::Commune::verify"],
                  to_case=lambda o, info: adss_case(o, info, [("m", 2), ("r", 2)], t=2, n_shares=2, expect_ok=True)))
+    obs.append(M("native::c05-faults", "concrete cross-check on the natively compiled crates (not a solver query; produces replayable counterexamples when a change rewrites code into a shape the symbolic engines refuse): every byte of the encoded ciphertext-supplying share flipped (t = 1 with 1 share, t = 2 with 2 and 3 shares) and the recorded threshold raised to the number of shares present: recovery rejects (for t = 1 the unauthenticated point bytes only require error-or-exactly-M)", bounds="concrete, 3-byte message, 2-byte coins"))
     return {
         "obligations": obs, "level": "model_checking",
         "bounds": "2-byte message and coins, thresholds 1-2, one altered field per query (whole field arbitrary)",
@@ -406,6 +459,11 @@ def c02(tier, seed):
     for h in ("c06_dealer_t256", "c06_dealer_t257"):
         obs.append(K("c06::" + h, tier="t", cap=1800, must_cover=["reached"],
                      claim="degree is exactly t-1 also for thresholds beyond one byte: t-1 coefficient draws", bounds="t = 256 / 257", stubs=SF))
+    obs.append(M("mir::dealer-threshold",
+                 "Sharks::dealer_rng -> random_polynomial from the MIR with a *symbolic u32 threshold T*: a path that leaves the coefficient loop after j draws has j == max(T,1)-1 for every T (the threshold reaches the loop bound at its full width: degree exactly T-1); one polynomial per secret element; the constant term is the secret element, every other coefficient a separate draw in draw order",
+                 bounds="secrets of 1 and 2 elements; the first 4 (quick) / 8 (thorough) loop iterations are explored, the continuing path is cut and shown to need T > iterations; from_repr opaque (accepting), Fp::random = n-th opaque draw",
+                 functions=["Sharks::dealer_rng", "random_polynomial"]))
+    obs.append(M("native::c06-dealer-gen", "concrete cross-check on the natively compiled crates (not a solver query; produces replayable counterexamples when a change rewrites code into a shape the symbolic engines refuse): dealing with thresholds around 2^8 and 2^16 draws 3(t-1) source words per element (degree t-1 at full threshold width)", bounds="concrete"))
     return {
         "obligations": obs, "level": "model_checking",
         "bounds": "n <= 4 shares, thresholds <= 4 (and 256/257 for the draw count), 2-byte messages",
@@ -442,6 +500,7 @@ def c03(tier, seed):
     for e1, e2 in ((1, 1),):
         obs.append(K("c03::c04_ske_sep_%d_%d" % (e1, e2), cap=400, must_cover=["equal", "different"],
                      claim="the payload key is derive_ske_key(r0, epoch): a function of secret r0 (not carried in the report: r0 only appears as C = r0 xor keystream(K))", bounds="see C04", stubs=STROBE))
+    obs.append(M("native::c03-lengths", "concrete cross-check on the natively compiled crates (not a solver query; produces replayable counterexamples when a change rewrites code into a shape the symbolic engines refuse): payloads of 1..1000 bytes around the 128/166/256-byte boundaries: decrypt inverts encrypt, no 12-byte window of the payload appears in the clear; two reports with 200/400-byte associated data differing everywhere: beyond the first rate block the ciphertext difference is not the plaintext difference (the first block is known finding D7 and is not re-reported by this obligation)", bounds="concrete"))
     return {
         "obligations": obs, "level": "model_checking",
         "bounds": "payloads of 1, 12 and 170 bytes",
@@ -458,6 +517,37 @@ def c01(tier, seed):
         obs.append(K("c03::" + h, cap=300, must_cover=["reached"],
                      claim="payload framing len|measurement [len|aux]: parses back to exactly the measurement and the associated data; absent and empty associated data are distinguishable",
                      bounds="measurement / aux up to 4 bytes", functions=["store_bytes", "load_bytes"]))
+    def gen_case(ml, al, has_aux):
+        def f(o, info):
+            v = lay(info, [("m", 4), ("a", 4), ("e", 2), ("t", 4)])
+            if v is None:
+                return []
+            return [{"kind": "star_e2e", "m": v["m"][:ml].hex(), "e": v["e"].hex(), "t": 1,
+                     "aux": [v["a"][:al].hex() if has_aux else None], "selection": [0]}]
+        return f
+    def sel_case(o, info):
+        v = lay(info, [("x0", 24), ("x1", 24), ("x2", 24), ("t", 4)])
+        if v is None:
+            return []
+        xs, sel = [], []
+        for k in ("x0", "x1", "x2"):
+            if v[k] not in xs:
+                xs.append(v[k])
+            sel.append(xs.index(v[k]))
+        return [{"kind": "star_e2e", "m": "6d6561", "e": "6531", "t": int.from_bytes(v["t"], "little"),
+                 "aux": [None] * len(xs), "selection": sel}]
+    obs.append(K("c16b::c01_selection_reaches_shamir_3", cap=300, must_cover=["repeat first", "surplus", "too few"], to_case=sel_case,
+                 claim="adss::recover consults the Shamir layer with the first share's threshold t and hands it at least min(t, #distinct) distinct points of the selection: repeated or surplus reports never crowd out a distinct share",
+                 bounds="3 shares, arbitrary points (every equality pattern and order), t in 1..=3, other thresholds arbitrary",
+                 functions=["adss::recover"], stubs=["Sharks::recover -> recorder (threshold, #points, #distinct points), then refuses", "Drop impls -> no-op"]))
+    for h, sh in (("c01_generate_3_2", (3, 2, True)), ("c01_generate_3_empty", (3, 0, True)),
+                  ("c01_generate_3_none", (3, 0, False)), ("c01_generate_0_none", (0, 0, False))):
+        obs.append(K("c03::" + h, cap=300, must_cover=["reached"], to_case=gen_case(*sh),
+                     claim="the real Message::generate encrypts, under the derived key, exactly len|measurement followed by len|aux iff associated data was supplied (empty data is not absence)",
+                     bounds="measurement %d bytes, associated data %s; any threshold, epoch, randomness" % (sh[0], ("%d bytes" % sh[1]) if sh[2] else "absent"),
+                     functions=["sta_rs::Message::generate", "store_bytes"],
+                     stubs=["MessageGenerator::derive_random_values / derive_key -> arbitrary values (C04)", "MessageGenerator::share -> a fixed share (C16)",
+                            "Ciphertext::new -> records key and plaintext (its masking is c03_masking)", "Drop impls -> no-op"]))
     obs.append(K("c03::c03_masking_12", cap=400, must_cover=["reached"], claim="Ciphertext::decrypt under the same key inverts Ciphertext::new", bounds="12-byte payload", stubs=STROBE))
     obs.append(K("c03::c04_ske_sep_1_1", cap=400, must_cover=["equal", "different"], claim="the server re-derives the clients' payload key from (recovered message, epoch): derive_ske_key is a function of exactly these", bounds="see C04", stubs=STROBE))
     obs.append(K("c16::c08_honest_roundtrip_1_1", cap=900, mem=30, must_cover=["reached"], claim="an honestly generated share survives encode -> decode unchanged", bounds="see C08", stubs=ADSS))
@@ -467,6 +557,8 @@ def c01(tier, seed):
     obs.append(K("c06::c06_interpolate_t3", cap=600, tier="t", must_cover=["reached"], claim="as above", bounds="t=3, GF(13)", stubs=SF))
     for h in ("c16_recover_t1_m1_r1",):
         obs.append(K("c16b::" + h, tier="t", cap=2400, mem=50, must_cover=["reached"], claim="threshold 1: share -> recover returns exactly the message", bounds="see C16", stubs=ADSS))
+    obs.append(M("native::e2e-scenarios", "concrete cross-check on the natively compiled crates (not a solver query): n = 5 clients, t in {1,2,3}, measurements of 0/1/3/300 bytes, epochs empty/non-empty, associated data none/empty/short/200 bytes, selections with repeats, surplus, permutations and sub-threshold sets: every report survives the wire, recovery succeeds iff the selection holds t distinct shares, every selected report decrypts to exactly (measurement, aux or absence)",
+                 bounds="the listed scenario family (every third scenario in quick)"))
     return {
         "obligations": obs, "level": "model_checking",
         "bounds": "component bounds of C03/C04/C06/C08/C16",
@@ -477,7 +569,54 @@ def c01(tier, seed):
     }
 
 
-TABLE = {"C09": c09, "C07": c07, "C06": c06, "C08": c08, "C04": c04, "C16": c16, "C05": c05, "C02": c02, "C03": c03, "C01": c01}
+GGM_ASSUME = ["bitvec's BitVec/BitSlice and std's Vec are modelled semantically in the MIR interpreter (a bit vector is a list of booleans, Lsb0 order)",
+              "the Strobe-based PRG is replaced by a free-algebra PRG (a seed is (root, path), a child appends the generator's bit): equalities between PRF values are decided exactly for every injective PRG; PRG security itself is outside",
+              "GGMPuncturableKey::new / GGM::setup are executed from the MIR too (bitvec's bits![..] literals and the vec![..] lowering are modelled); the OS seed is an opaque root, the two generators are distinguished by the order of their setup() calls"]
+
+
+def ggm_spec(tier, seed, fam, what):
+    obs = []
+    for k, q in ((1, "q"), (2, "q"), (3, "t")):
+        obs.append(M("ggm::history-k%d" % k, what + " — every history of %d symbolic puncture(s) (all 256^%d ordered histories incl. repeats) followed by one symbolic probe" % (k, k),
+                     tier=q, bounds="k = %d punctures, 8-bit inputs fully symbolic; no input is enumerated (the interpreter forks only on which retained node covers an input)" % k,
+                     functions=["<GGM as PPRF>::eval", "<GGM as PPRF>::puncture", "GGM::partial_eval", "GGM::bit_eval", "GGMPuncturableKey::find_prefix", "GGMPuncturableKey::puncture", "bvcast_u8_to_usize"],
+                     ggm=("history", k), tags=[fam, "c10::fresh", "c10::wrong"] if fam == "c10::" else [fam]))
+    return {
+        "obligations": obs, "level": "model_checking",
+        "bounds": "histories of up to 3 punctures (any order, any repeats) + 1 probe over the full 8-bit domain, symbolically",
+        "outside": "histories longer than 3 punctures (the property's full 2^256 subsets would need the one-step invariant: not built); PRG security; serde export/import bytes (C15); the retry-free OS seed",
+        "assumptions": GGM_ASSUME,
+        "trusted_base": ["/verif/mirsmt interpreter + library models", "z3 4.8.12 + cvc5 1.0", "rustc nightly MIR dump of ppoprf (features key-sync)"],
+        "explanation": "symbolic execution of the MIR of ppoprf::ggm with symbolic input bytes; per path the claims are SMT queries over the input bits",
+    }
+
+
+def c10(tier, seed):
+    return ggm_spec(tier, seed, "c10::", "punctured inputs can never be evaluated or punctured again, every other input keeps exactly its pre-puncture value, distinct inputs have distinct values, wrong-length inputs are refused without changing the key")
+
+
+def c11(tier, seed):
+    return ggm_spec(tier, seed, "c11::", "the retained key material contains no node on the path to a punctured input (no retained prefix is a prefix of it, every retained seed is exactly its own node's value, the root secret is never stored), retained nodes are prefix-free and every unpunctured input is covered by exactly one")
+
+
+def c14(tier, seed):
+    obs = []
+    for k, q in ((1, "q"), (2, "q"), (3, "t")):
+        obs.append(M("ggm::server-k%d" % k, "Server::{new, eval, puncture, set_private_key} from their MIR on top of the GGM key: for the registered tag sets {0,255}, {1,2}, {} and every history of %d symbolic puncture(s) followed by one symbolic request (symbolic tag, symbolic point decodability): the server answers iff the point decodes, the tag was registered at creation and has not been punctured; errors are BadPointEncoding / BadTag / NoPrefixFound in that order; the answer equals the untouched server's answer for that (point, tag); a tag can be punctured exactly once; the public key and the OPRF key never change; a server importing the exported key state equals the exporter incl. all punctures so far" % k,
+                     tier=q, bounds="k = %d punctures; tags and the requested tag fully symbolic (8 bits); registered sets concrete; non-verifiable mode (the proof path is group arithmetic: C13)" % k,
+                     functions=["Server::new", "Server::eval", "Server::puncture", "Server::set_private_key", "ServerPublicKey::get", "<GGM as PPRF>::eval", "<GGM as PPRF>::puncture"],
+                     ggm=("server", k), tags=["c14::"]))
+    return {
+        "obligations": obs, "level": "model_checking",
+        "bounds": "operation sequences: k <= 3 punctures (symbolic tags) then one request; registered sets {0,255}, {1,2}, {}",
+        "outside": "interleaved evaluations between punctures (evaluation is shown to change nothing, so they commute with the history); `Clone` (derive: deep copy by ownership); the serde bytes of export/import (C15); verifiable mode and the Ristretto values themselves (C12/C13); examples/server.rs",
+        "assumptions": GGM_ASSUME + ["curve25519-dalek operations (decompress, scalar arithmetic, point multiplication, compress) are uninterpreted functions; decompression succeeds or fails nondeterministically", "BTreeMap<u8, Point> modelled as an association list"],
+        "trusted_base": ["/verif/mirsmt interpreter + library models", "z3 4.8.12 + cvc5 1.0"],
+        "explanation": "symbolic execution of ppoprf::Server's MIR with symbolic tags; group arithmetic abstracted to uninterpreted terms so that 'the answer never changes' is term equality",
+    }
+
+
+TABLE = {"C10": c10, "C11": c11, "C14": c14, "C09": c09, "C07": c07, "C06": c06, "C08": c08, "C04": c04, "C16": c16, "C05": c05, "C02": c02, "C03": c03, "C01": c01}
 
 
 def get(pid, tier, seed):
